@@ -1,6 +1,6 @@
 --------------------------- MODULE MC_Subprocess ---------------------------
 EXTENDS Subprocess, TLC
-CONSTANT ProgName
+CONSTANTS ProgName, FirstName
 W(s, n) == [op |-> "W", s |-> s, n |-> n, code |-> 0]
 I(o) == [op |-> o, s |-> "out", n |-> 0, code |-> 0]
 R(n) == [op |-> "R", s |-> "out", n |-> n, code |-> 0]
@@ -17,4 +17,5 @@ Progs == [
   ignhang    |-> <<I("IgnTerm"), W("out", 2), W("err", 1), I("Hang")>>,   \* ... and ignores SIGTERM
   slowexit   |-> <<I("IgnTerm"), W("out", 3), X(4)>> ]            \* may or may not finish before the deadline
 MCProg == Progs[ProgName]
+MCFirst == IF FirstName = "none" THEN <<>> ELSE Progs[FirstName]
 =============================================================================
